@@ -96,6 +96,12 @@ def cells(tier, seed):
             c = {"strategy": s, "dist": dist, "pat": [b * p for p in pat], "shape": list(shape), "q": q, "mode": mode, "jit": jit}
             if valid(c):
                 out.append(c)
+    # the jitter chosen by the global setting at the time of the evaluation (the model is built and first called outside the block)
+    for shape in (shapes if tier == "thorough" else shapes[:1]):
+        for s, dist, q, mode in itertools.product(STRATS, DISTS, ["prior", "generic"], ["eval", "train"]):
+            c = {"strategy": s, "dist": dist, "pat": [0, 0, 0, 0], "shape": list(shape), "q": q, "mode": mode, "jit": "setting"}
+            if valid(c):
+                out.append(c)
     for s, dist in sorted(ILLEGAL):
         out.append({"strategy": s, "dist": dist, "pat": [0, 0, 0, 0], "shape": [3, 4, 1], "q": "generic", "mode": "eval",
                     "jit": "default", "expect": "refusal"})
@@ -200,7 +206,7 @@ class Case:
         self.bz, self.bv, self.bk, self.bx = [((b,) if b else ()) for b in cell["pat"]]
         self.M, self.n, self.d = cell["shape"]
         self.jit = JIT_DEFAULT if cell["jit"] == "default" else 1e-4
-        self.jkw = {} if cell["jit"] == "default" else {"jitter_val": self.jit}
+        self.jkw = {"jitter_val": self.jit} if cell["jit"] == "arg" else {}
         self.ops = 0
         getattr(self, "build_" + {"BatchDecoupledMV": "BatchDecoupled"}.get(self.s, self.s))()
 
@@ -613,6 +619,8 @@ def _run(cell, g, fails):
             return "set-params-failed"
         if skipped:
             return "q-not-representable"
+        if cell["jit"] == "setting":
+            st.enter_context(gpytorch.settings.variational_cholesky_jitter(double_value=case.jit))
         model.train(mode == "train")
 
         # every variational distribution returns exactly the moments its parameters encode
